@@ -60,6 +60,11 @@ var profiles = map[string]*profile{
 		mapW:   []wk{{model.MStore, 10}, {model.MDelete, 10}, {model.MLoadAndDelete, 6}, {model.MCompute, 8}, {model.MLoadOrStore, 6}, {model.MClear, 4}, {model.MSize, 3}, {model.MLoadOrCompute, 4}},
 		cacheW: []wk{{model.CSet, 10}, {model.CDelete, 10}, {model.CGetAndDelete, 6}, {model.CCompute, 8}, {model.CGetOrSet, 6}, {model.CClear, 4}, {model.CCount, 3}, {model.CDeleteExpired, 5}, {model.CGetAndRefresh, 3}, {model.CGet, 3}},
 		fillBias: "threshold", hashers: defaultHashers},
+	// C09 under concurrency: SetDefaultExpiration racing the calls that resolve the DefaultExpiration sentinel, and
+	// the readers of the resulting instants (TTL arguments biased to the sentinel)
+	"C09": {prop: "C09", kinds: []string{"cache", "cacheof"}, hotMax: 2, thrMin: 2, thrMax: 3, opsMax: 3,
+		cacheW: []wk{{model.CSetDefaultExp, 14}, {model.CSetDefault, 14}, {model.CSet, 8}, {model.CGetOrSet, 5}, {model.CGetAndSet, 4}, {model.CGetAndRefresh, 6}, {model.CGetOrCompute, 3},
+			{model.CCompute, 4}, {model.CGetTTL, 14}, {model.CGetExp, 8}, {model.CDefaultExp, 3}, {model.CGet, 4}}},
 	"C13": {prop: "C13", kinds: []string{"map", "mapof", "cache", "cacheof"}, hotMax: 3, thrMin: 2, thrMax: 4, opsMax: 3,
 		mapW:   []wk{{model.MStore, 8}, {model.MDelete, 6}, {model.MCompute, 10}, {model.MLoadOrStore, 5}, {model.MLoadOrCompute, 5}, {model.MClear, 10}, {model.MRange, 8}, {model.MLoadAndDelete, 5}, {model.MLoad, 2}, {model.MLoadAndStore, 3}},
 		cacheW: []wk{{model.CSet, 8}, {model.CDelete, 6}, {model.CCompute, 10}, {model.CGetOrSet, 5}, {model.CGetOrCompute, 5}, {model.CClear, 10}, {model.CRange, 5}, {model.CItems, 3}, {model.CDeleteExpired, 8}, {model.CGetAndDelete, 5}, {model.CGet, 3}, {model.CGetAndRefresh, 4}, {model.CGetAndSet, 3}},
@@ -269,6 +274,9 @@ func genProgram(rt *rapid.T, pf *profile) *Program {
 		}
 	}
 	ttls := ttlArgs
+	if pf.prop == "C09" {
+		ttls = []int64{model.DefaultExpiration, model.DefaultExpiration, model.DefaultExpiration, model.NoExpiration, 30, 1000}
+	}
 	if isCache && irange(rt, 0, 2, "tickingClock") == 0 {
 		// time passes while calls run: tiny TTLs expire during the concurrent phase
 		p.Tick = true
